@@ -85,6 +85,24 @@ def applyTransforms : List PermuteSpec → List TState → Except Err (List TSta
       | .error e => .error e
       | .ok v => applyTransforms rest (ts.set sp.index { t with view := v })
 
+/-- `TransformInputs::in_place_inputs`: the inner operator's set, unless a transform applies to one
+of those inputs (only the first 16 inputs can be in-place inputs), in which case in-place
+execution is refused altogether. -/
+def transformInPlaceInputs (innerIps : List Nat) (specs : List PermuteSpec) : List Nat :=
+  if specs.any (fun sp => decide (sp.index < 16) && innerIps.contains sp.index) then [] else innerIps
+
+/-- The transform loop of `TransformInputs::run_in_place`: it runs over `ctx.inputs()`, where the
+positions of the in-place inputs are `None`; hitting such a slot is `MissingInputs`. -/
+def applyTransformsOpt : List PermuteSpec → List (Option TState) → Except Err (List (Option TState))
+  | [], ts => .ok ts
+  | sp :: rest, ts =>
+    match ts[sp.index]? with
+    | some (some t) =>
+      match applyPerm t.view sp.perm with
+      | .error e => .error e
+      | .ok v => applyTransformsOpt rest (ts.set sp.index (some { t with view := v }))
+    | _ => .error .err
+
 /-- `TransformInputs::run`. -/
 def transformInputsRunAll {β : Type} (specs : List PermuteSpec) (inner : List TState → β)
     (ts : List TState) : Except Err β :=
